@@ -69,6 +69,8 @@ type vnetScenario struct {
 	faultDatagrams       int
 	sr, sw, cr           [2]int64 // stream read / stream write / conn read buffer per side
 	streams              []vnetStreamPlan
+	hsdrop               bool // scripted: lose the client's Handshake-Finished datagram(s) and the
+	drop1RTT             int  // next drop1RTT client datagrams (1-RTT data sent right behind it)
 }
 
 func vnetGen(r *vu.Rng, i int, prop int) []string {
@@ -122,6 +124,8 @@ func vnetParse(ops []string) (sc vnetScenario, ok bool) {
 				sc.sr[s], sc.sw[s], sc.cr[s] = vu.Atoi64(t[7+3*s]), vu.Atoi64(t[8+3*s]), vu.Atoi64(t[9+3*s])
 			}
 			ok = true
+		case t[1] == "hsdrop" && len(t) == 3:
+			sc.hsdrop, sc.drop1RTT = true, vu.Atoi(t[2])
 		case t[1] == "stream" && len(t) == 11:
 			p := vnetStreamPlan{side: vu.Atoi(t[2]) & 1, uni: t[3] == "u", total: vu.Atoi(t[4]), chunk: max(1, vu.Atoi(t[5])),
 				flushMode: vu.Atoi(t[6]), end: t[7], resetAfter: vu.Atoi(t[8]), readSize: max(1, vu.Atoi(t[9])), readerStop: vu.Atoi(t[10])}
@@ -396,6 +400,7 @@ func vnetRun(t *testing.T, sc vnetScenario, prop int, res *vnetResult) {
 	// ---- network
 	var flights []vnetFlight
 	seq, faultsLeft := 0, 0
+	dropNextClient := 0
 	collect := func() {
 		wire.mu.Lock()
 		out := wire.out
@@ -405,6 +410,11 @@ func vnetRun(t *testing.T, sc vnetScenario, prop int, res *vnetResult) {
 		for s := 0; s < 2; s++ {
 			for _, b := range out[s] {
 				res.stats["net:datagrams"]++
+				if s == 0 && dropNextClient > 0 {
+					dropNextClient--
+					res.stats["net:scripted-drop"]++
+					continue
+				}
 				copies := 1
 				delay := time.Duration(0)
 				if faultsLeft > 0 {
@@ -524,7 +534,20 @@ func vnetRun(t *testing.T, sc vnetScenario, prop int, res *vnetResult) {
 			}
 		}
 	}
-	for i := 0; conns[1] == nil && i < 2000; i++ {
+	if sc.hsdrop {
+		// lose whatever the client has in flight towards the server right now (its Handshake Finished)
+		kept := flights[:0]
+		for _, f := range flights {
+			if f.to == 1 {
+				res.stats["net:scripted-drop"]++
+				continue
+			}
+			kept = append(kept, f)
+		}
+		flights = kept
+		dropNextClient = sc.drop1RTT
+	}
+	for i := 0; !sc.hsdrop && conns[1] == nil && i < 2000; i++ {
 		flush()
 		collect()
 		deliverDue()
@@ -536,12 +559,12 @@ func vnetRun(t *testing.T, sc vnetScenario, prop int, res *vnetResult) {
 			time.Sleep(time.Millisecond)
 		}
 	}
-	if conns[1] == nil {
+	if conns[1] == nil && !sc.hsdrop {
 		fail("net-no-progress", "server never accepted the connection")
 		return
 	}
 	// let the handshake settle (HANDSHAKE_DONE, acks)
-	for i := 0; i < 50 && (len(flights) > 0 || i < 5); i++ {
+	for i := 0; !sc.hsdrop && i < 50 && (len(flights) > 0 || i < 5); i++ {
 		flush()
 		collect()
 		deliverDue()
@@ -599,9 +622,15 @@ func vnetRun(t *testing.T, sc vnetScenario, prop int, res *vnetResult) {
 	for step := 0; step < 8000; step++ {
 		deliverDue()
 		progress := false
+		if conns[1] == nil {
+			if c, err := eps[1].Accept(canceledContext()); err == nil {
+				conns[1] = c
+				progress = true
+			}
+		}
 		// accept peer-initiated streams
 		for s := 0; s < 2; s++ {
-			for {
+			for conns[s] != nil {
 				as, err := conns[s].AcceptStream(canceledContext())
 				if err != nil {
 					break
@@ -808,6 +837,10 @@ func vnetRun(t *testing.T, sc vnetScenario, prop int, res *vnetResult) {
 			sb.WriteString("]")
 		}
 		for s := 0; s < 2; s++ {
+			if conns[s] == nil {
+				fmt.Fprintf(&sb, " conn%d: never established", s)
+				continue
+			}
 			f := &conns[s].streams.inflow
 			of := &conns[s].streams.outflow
 			ls := &conns[s].loss
